@@ -35,6 +35,7 @@ pub fn op_name<T: std::fmt::Debug>(op: &T) -> String {
 }
 
 struct W2<'a> {
+    focus: Option<&'static str>,
     script: &'a W2Script,
     bump: &'static Bump,
     clients: Vec<Client>,
@@ -158,6 +159,10 @@ impl<'a> W2<'a> {
                     // a neighbour changed although it was not the one operated on
                     let actor = Self::prop_of(&self.clients[acting]);
                     self.violate(actor, "neighbour-disturbed", what, op, format!("client {}: {}", i, detail));
+                    if what == "canary-changed" {
+                        // a raw arena block changed although nobody wrote through its pointer
+                        self.violate("C02", "live-block-changed", "by-a-collection", op, format!("client {}: {}", i, detail));
+                    }
                     if actor != prop {
                         self.violate(prop, "neighbour-disturbed", what, op, format!("client {}: {}", i, detail));
                     }
@@ -286,7 +291,13 @@ impl<'a> W2<'a> {
                 (Err(()), Err(())) => self.stats.hit("w2_both_panicked"),
             }
             if let Some((p, oracle, detail)) = o.extra {
-                self.violate(p, oracle, "", &name, detail);
+                if self.focus.map(|f| f != p).unwrap_or(false) {
+                    // a capacity claim that is another property's business: remember it and go
+                    // on, so that what it leads to (a neighbour overwritten) is seen as well
+                    self.stats.hit("w2_side_violation");
+                } else {
+                    self.violate(p, oracle, "", &name, detail);
+                }
             }
             self.fp.mix(o.b.is_err() as u64);
         }
@@ -329,7 +340,7 @@ impl<'a> W2<'a> {
     }
 }
 
-pub fn exec_w2(script: &W2Script) -> W2Report {
+pub fn exec_w2(script: &W2Script, focus: Option<&'static str>) -> W2Report {
     simalloc::begin_run(script.placement);
     track::reset_ledger();
     let cap = script.capacity;
@@ -362,6 +373,7 @@ pub fn exec_w2(script: &W2Script) -> W2Report {
         })
         .collect();
     let mut w = W2 {
+        focus,
         script,
         bump,
         clients,
